@@ -148,18 +148,40 @@ Definition stereo_profile (m1 m2 : mol) (phi : list nat) : list (nat * sdiff) :=
 
 (* ------------------------------------------------------------------ the relations the properties use *)
 
+(* a marked centre carries no stereo information when inverting it alone gives back the same molecule:
+   some automorphism fixes it, keeps every other centre, and turns its neighbours by an odd permutation
+   (e.g. C3 of arabinitol, whose two branches are identical) *)
+Definition void_centre (m : mol) (c : nat) : bool :=
+  existsb (fun psi => Nat.eqb (nth c psi (S c)) c &&
+                      match stereo_profile m m psi with
+                      | [(c', SOpposite)] => Nat.eqb c' c
+                      | _ => false
+                      end) (all_isos m m).
+
+Definition diff_void (a b : mol) (phi : list nat) (d : nat * sdiff) : bool :=
+  match d with
+  | (i, SOpposite) => void_centre a i
+  | (i, SOnlyLeft) => void_centre a i
+  | (i, SOnlyRight) => void_centre b (nth i phi 0)
+  | _ => false
+  end.
+
 Definition same_molecule (m1 m2 : mol) : bool :=
   let a := strip_h m1 in let b := strip_h m2 in
-  existsb (fun phi => match stereo_profile a b phi with [] => true | _ => false end) (all_isos a b).
+  let isos := all_isos a b in
+  existsb (fun phi => match stereo_profile a b phi with [] => true | _ => false end) isos ||
+  existsb (fun phi => forallb (diff_void a b phi) (stereo_profile a b phi)) isos.
 
 Definition same_constitution (m1 m2 : mol) : bool :=
   match all_isos (strip_h m1) (strip_h m2) with [] => false | _ => true end.
 
 Definition mirror_image (m1 m2 : mol) : bool :=
   let a := strip_h m1 in let b := strip_h m2 in
-  existsb (fun phi => forallb (fun i => match a_chir (nth i (m_atoms a) (mkAtom [] false false 0 ChNone 0 0%Z)) with
-                                        | ChNone => sdiff_eqb (stereo_at a b phi i) SSame
-                                        | _ => sdiff_eqb (stereo_at a b phi i) SOpposite end)
+  existsb (fun phi => forallb (fun i =>
+                                 let d := stereo_at a b phi i in
+                                 match a_chir (nth i (m_atoms a) (mkAtom [] false false 0 ChNone 0 0%Z)) with
+                                 | ChNone => sdiff_eqb d SSame || diff_void a b phi (i, d)
+                                 | _ => sdiff_eqb d SOpposite || void_centre a i end)
                               (seq 0 (length (m_atoms a))))
           (all_isos a b).
 
